@@ -55,6 +55,9 @@ package mux
 //@   ensures @after_shutdown_closed: old(m.lifetime.Err() != nil) ==> yamuxSession.closed && conn.closed
 //@   callpre NewManagedMuxSession: @owns: $session == yamuxSession && $conn == conn && $parentLifetime == m.lifetime && m.lifetime.Err() == nil
 //@   callpre notifyChange: @after_insert: newId in m.muxes
+// seed C11-12: the session is created INSIDE the critical section that registers it - its end-of-life callback
+// (unregisterMux, which needs the lock) can then not run before the registration and leave a dead session registered
+//@   callpre NewManagedMuxSession: @created_inside_the_registration_section: held(m.muxesLock)
 
 // The dead session is removed and the listeners are told, inside one critical section.
 //@ contract (*multiMuxManager).unregisterMux
